@@ -2756,7 +2756,9 @@ class Partitions(Expr):
         from dask_expr import SetIndexBlockwise
 
         if isinstance(self.frame, Blockwise) and not isinstance(
-            self.frame, (BlockwiseIO, Fused, SetIndexBlockwise)
+            self.frame,
+            # BlockwiseHead decides itself how many partitions it outputs
+            (BlockwiseIO, Fused, SetIndexBlockwise, BlockwiseHead),
         ):
             operands = [
                 (
